@@ -155,10 +155,13 @@ def check_message(ctx, dec, q, names, b, spec, edition, sec2):
     nz = bytearray(noise)
     nz[len(b) - 4:] = b'7777'
     variants.append(('noise-data', bytes(nz)))
-    for vname, vb in variants:
+    # (the lenient option ignore_value_expectation must not turn a metadata-only decode into a full one)
+    variants = [(vn, vb, {}) for vn, vb in variants] + [(vn + '+ignore-value-expectation', vb, dict(ignore_value_expectation=True))
+                                                         for vn, vb in variants]
+    for vname, vb, opts in variants:
         tape.recent.clear()
         try:
-            mi = dec.process(vb, info_only=True)
+            mi = dec.process(vb, info_only=True, **opts)
         except Exception as ex:
             ctx.violate('info-only-raises:%s/%s' % (type(ex).__name__, vname),
                         'info-only decode of a message with %s raised %s: %s' % (vname, type(ex).__name__, str(ex)[:100]),
@@ -170,7 +173,7 @@ def check_message(ctx, dec, q, names, b, spec, edition, sec2):
             if typed:
                 ctx.violate('probe/info-only-typed-read-in-data-section', 'info-only decode made typed reads inside the data: %r' % (typed[:3],),
                             dict(spec, variant=vname), advisory=True)
-        ctx.count('info_only_compared' if vname == 'intact' else 'noise_data_info_only')
+        ctx.count('info_only_compared' if vname.startswith('intact') else 'noise_data_info_only')
         ctx.evaluated((len(b), b[:40].hex(), 'info', vname), True)
         for idx, d in secs:
             if idx > 3:
@@ -217,14 +220,18 @@ def declared_length_stream(ctx, dec, rng, k):
     spec = dict(origin='declared-length', stream_hex=stream.hex())
     ctx.count('declared_length_streams')
     ctx.evaluated(('declared', stream.hex()), True, sample=dict(kind='declared-total-length stream', lengths=[len(p) for p in parts]))
-    try:
-        got = [m.serialized_bytes for m in generate_bufr_message(dec, stream, info_only=True)]
-    except Exception as e:
-        ctx.violate('info-only-stream-raises:%s' % type(e).__name__, 'info-only scan raised %s' % type(e).__name__, spec, exc=e)
-        return
-    if got != want:
-        ctx.violate('info-only-stream/bytes-not-from-declared-length',
-                    'info-only scan yielded lengths %r, declared total lengths are %r' % ([len(g) for g in got], [len(w) for w in want]), spec)
+    for opts in ({}, dict(ignore_value_expectation=True), dict(continue_on_error=True)):
+        oname = '+'.join(sorted(opts)) or 'default'
+        try:
+            got = [m.serialized_bytes for m in generate_bufr_message(dec, stream, info_only=True, **opts)]
+        except Exception as e:
+            ctx.violate('info-only-stream-raises:%s/%s' % (type(e).__name__, oname), 'info-only scan (%s) raised %s' % (oname, type(e).__name__),
+                        dict(spec, options=opts), exc=e)
+            continue
+        if got != want:
+            ctx.violate('info-only-stream/bytes-not-from-declared-length/' + oname,
+                        'info-only scan (%s) yielded lengths %r, declared total lengths are %r' % (oname, [len(g) for g in got], [len(w) for w in want]),
+                        dict(spec, options=opts))
 
 
 def run(ctx):
